@@ -14,8 +14,11 @@ Classes == [depth : 0 .. MAXD + 1, plen : {"eq", "short", "long"}, pval : {"ok",
 Feasible(c) == /\ (c.plen = "short" => c.depth >= 1)
                /\ (c.pval = "four" => (c.depth >= 1 /\ (c.plen = "short" => c.depth >= 2)))
                /\ (c.canon = "sibling" => c.depth >= 1)
-               \* a non-canonical hash or an out-of-range position leaves no defined fold to compare with
-               /\ ((c.canon # "all" \/ c.pval # "ok" \/ c.plen # "eq") => ~c.rootok)
+               \* an out-of-range position leaves no defined fold to compare with.  For a non-canonical hash rootok means:
+               \* the root equals what a verifier WITHOUT the canonicity guard would compute - the fold of the path with the
+               \* offending limb reduced mod p (the alias v + p of a genuine limb v), and at depth 0 (nothing is hashed)
+               \* simply the non-canonical leaf bytes themselves.  Valid stays FALSE for all of them.
+               /\ ((c.pval # "ok" \/ c.plen # "eq") => ~c.rootok)
 VARIABLES c, stage, verdict
 vars == <<c, stage, verdict>>
 Init == c \in {x \in Classes : Feasible(x)} /\ stage = "depth" /\ verdict = "none"
